@@ -1,6 +1,7 @@
 #!/usr/bin/env python3
 """try_explore.py <Cxx> [patch.diff] [seed] : run only the correspondence/predicate part of a check (no Coq), optionally with a patch applied to /repo."""
-import sys, os, subprocess, collections, importlib
+import sys, os, subprocess, collections, importlib, signal
+signal.signal(signal.SIGTERM, lambda *a: sys.exit(143))   # run the finally clause (revert the patch) when killed
 sys.path.insert(0, '/verif/lib')
 import common as C
 prop = sys.argv[1]
